@@ -105,6 +105,18 @@ func (c *Ctx) ruleDispatchFor(only map[string]bool) {
 		}) {
 			problems = append(problems, "the closure invoked is not (only) the one installed on the receiver itself")
 		}
+		// what the closure is handed is the dispatcher's own receiver and parameters, as given:
+		// nothing computed from them (an unwrapped, filtered or converted argument list)
+		if !fa.allHold(call, func(s *State) bool {
+			for _, a := range call.Call.Args {
+				if termHasKind(fa.term(s, a), "APP") {
+					return false
+				}
+			}
+			return true
+		}) {
+			problems = append(problems, "an argument handed to the closure is computed (a call result), not the receiver or a parameter as given")
+		}
 		nClosure, nDefault, nEarly, nUninit := 0, 0, 0, 0
 		_ = nUninit
 		for _, rs := range fa.rets {
